@@ -235,9 +235,16 @@ def run(ctx):
     ctx.guard(c04.rule_r2)
     ctx.guard(c04.rule_r4)
     ctx.guard(c04.rule_r5)
+    ctx.guard(c04.rule_r9)
+    ctx.guard(c04.rule_r10)
     for rr in ctx.rules:
         if rr.id.startswith("C04."):
             rr.id = rr.id.replace("C04.", "C07.S")
     ctx.guard(rule_r5)
     ctx.guard(rule_r7)
     ctx.guard(rule_r8)
+    from . import c12
+    ctx.guard(c12.rule_r4)           # the deadline is computed from the surveying context's own survey time
+    for rr in ctx.rules:
+        if rr.id == "C12.R4":
+            rr.id = "C07.R9"
